@@ -17,4 +17,5 @@ import Rtcp.Props.Calls
 import Rtcp.Props.EndToEnd
 import Rtcp.Props.Fast
 import Rtcp.Props.FastWrite
+import Rtcp.Props.CompoundE2E
 import Rtcp.Props.Pins
